@@ -44,6 +44,8 @@ class Tr:
             return [{"op": "lclear" if hist else "lreset", "obj": h}]
         if op == "lclone":
             return [{"op": "lclone", "obj": h, "as": g}]
+        if op == "lclonefrom":
+            return [{"op": "lclone_from", "obj": g, "from": h}]
         if op in ("ldrop", "lvdrop"):
             return [{"op": "drop", "obj": h}]
         if op in ("ldrop_unwinding", "lvdrop_unwinding"):
@@ -299,13 +301,15 @@ def gen_plan(rnd, mode, n):
             none = [h for h in HANDLES if st[h] == "none"]
             ops = ["direct"]
             if alive:
-                ops += ["linc", "linc", "lflush", "lreset", "ldrop"] + (["lclone"] if none else [])
+                ops += ["linc", "linc", "lflush", "lreset", "ldrop"] + (["lclone"] if none else []) + (["lclonefrom"] if len(alive) >= 2 else [])
             if none:
                 ops += ["lnew"]
             op = rnd.choice(ops)
             e = {"op": op, "h": "-", "g": "-", "k": "-", "v": rnd.randint(1, 3), "res": "Ok"}
-            if op in ("linc", "lflush", "lreset", "ldrop", "lclone"):
+            if op in ("linc", "lflush", "lreset", "ldrop", "lclone", "lclonefrom"):
                 e["h"] = rnd.choice(alive)
+            if op == "lclonefrom":
+                e["g"] = rnd.choice([x for x in alive if x != e["h"]])
             if op == "lclone":
                 e["g"] = rnd.choice(none); st[e["g"]] = "alive"
             if op == "lnew":
